@@ -1,13 +1,86 @@
 package main
 
 import (
+	"bytes"
+	"context"
 	"encoding/base64"
 	"encoding/hex"
+	"encoding/json"
 	"errors"
 	"io"
 
+	"github.com/pulumi/esc"
 	"github.com/pulumi/esc/eval"
 )
+
+// c11Recorder is a Decrypter that records what it is handed: a copy taken at call time and the slice itself
+// (a decrypter may keep its argument, e.g. to decrypt in the background or in a batch).
+type c11Recorder struct {
+	copies [][]byte
+	kept   [][]byte
+}
+
+func (r *c11Recorder) Decrypt(_ context.Context, c []byte) ([]byte, error) {
+	r.copies = append(r.copies, append([]byte(nil), c...))
+	r.kept = append(r.kept, c)
+	return []byte(`"pt"`), nil
+}
+
+// c11Other is a valid envelope of a payload unlike anything the generator produces; decoding it between a decode and
+// the use of its result shows whether a returned payload is still owned by the decoder.
+func c11Other(n int) string {
+	return eval.VerifEncodeCiphertext(bytes.Repeat([]byte{0xA5}, n))
+}
+
+// c11Paths feeds repr, as the ciphertext of a secret, to the two public entry points that unwrap envelopes
+// (DecryptSecrets over a document; the evaluator's fn::secret) with a recording decrypter.  Each must hand the decrypter
+// exactly the payload decodeCiphertext returns - and nothing at all when decodeCiphertext rejects repr.
+func c11Paths(repr string, ok bool, want []byte) (string, string) {
+	for _, b := range []byte(repr) {
+		if b < 0x20 || b >= 0x7f {
+			return "skip", "skip"
+		}
+	}
+	q, _ := json.Marshal(repr)
+	doc := []byte("values:\n  s:\n    fn::secret:\n      ciphertext: " + string(q) + "\n  t:\n    fn::secret:\n      ciphertext: " + c11OtherQ + "\n")
+	judge := func(r *c11Recorder) string {
+		// the second secret (always valid) must arrive; the first only if accepted
+		var mine [][]byte
+		var kept [][]byte
+		for i, c := range r.copies {
+			if !bytes.Equal(c, c11OtherPayload) {
+				mine = append(mine, c)
+				kept = append(kept, r.kept[i])
+			}
+		}
+		switch {
+		case !ok && len(mine) != 0:
+			return "rejected-envelope-reached-decrypter:" + hex.EncodeToString(mine[0])
+		case ok && len(mine) == 0 && !bytes.Equal(want, c11OtherPayload):
+			return "accepted-envelope-never-decrypted"
+		case ok && len(mine) != 0 && !bytes.Equal(mine[0], want):
+			return "decrypter-got-other-bytes:" + hex.EncodeToString(mine[0])
+		case ok && len(kept) != 0 && !bytes.Equal(kept[0], want):
+			return "payload-changed-after-the-call:" + hex.EncodeToString(kept[0])
+		}
+		return "same"
+	}
+	r1 := &c11Recorder{}
+	_, _ = eval.DecryptSecrets(context.Background(), "doc", doc, r1)
+	p1 := judge(r1)
+	p2 := "skip"
+	env, diags, err := eval.LoadYAMLBytes("doc", doc)
+	if err == nil && !diags.HasErrors() {
+		r2 := &c11Recorder{}
+		ec, _ := esc.NewExecContext(map[string]esc.Value{})
+		_, _ = eval.EvalEnvironment(context.Background(), "doc", env, r2, nil, nil, ec)
+		p2 = judge(r2)
+	}
+	return p1, p2
+}
+
+var c11OtherPayload = bytes.Repeat([]byte{0xA5}, 7)
+var c11OtherQ = func() string { q, _ := json.Marshal(c11Other(7)); return string(q) }()
 
 func init() { register("C11", c11) }
 
@@ -24,9 +97,18 @@ func c11(c map[string]any) map[string]any {
 	case "dec":
 		repr, _ := hex.DecodeString(str(c, "repr"))
 		out, err := eval.VerifDecodeCiphertext(string(repr))
+		var first []byte
 		if err == nil {
-			return map[string]any{"res": "ok", "ct": hex.EncodeToString(out)}
+			first = append([]byte(nil), out...)
+			// the caller owns the result: later unwraps (same and larger size) must not change it
+			_, _ = eval.VerifDecodeCiphertext(c11Other(len(out)))
+			_, _ = eval.VerifDecodeCiphertext(c11Other(len(out) + 300))
 		}
+		p1, p2 := c11Paths(string(repr), err == nil, first)
+		if err == nil {
+			return map[string]any{"res": "ok", "ct": hex.EncodeToString(out), "first": hex.EncodeToString(first), "doc": p1, "eval": p2}
+		}
+		c["_doc"], c["_eval"] = p1, p2
 		var b64 base64.CorruptInputError
 		kind := "other:" + err.Error()
 		switch {
@@ -41,7 +123,7 @@ func c11(c map[string]any) map[string]any {
 		case err.Error() == "unsupported version":
 			kind = "version"
 		}
-		return map[string]any{"res": kind}
+		return map[string]any{"res": kind, "doc": c["_doc"], "eval": c["_eval"]}
 	}
 	return map[string]any{"res": "badop"}
 }
